@@ -18,7 +18,9 @@ use crate::shard::{build, cksum, split_ops};
 use crate::util::{hex, unhex, Lines};
 
 const MARK: &str = "/XV_CRASH_MARK";
-const INJECT: &str = "openat,creat,write,pwrite64,rename,renameat,renameat2,unlink,unlinkat,ftruncate";
+// every call that creates, fills, links, renames, shrinks or removes a file (a crash is injected at the entry of each)
+const INJECT: &str = "openat,creat,write,pwrite64,writev,pwritev,pwritev2,copy_file_range,sendfile,rename,renameat,renameat2,unlink,unlinkat,ftruncate,truncate,\
+link,linkat,symlink,symlinkat,fallocate,fchmod,mkdir,mkdirat,rmdir";
 
 fn copy_dir(src: &Path, dst: &Path) {
     std::fs::create_dir_all(dst).unwrap();
@@ -470,8 +472,9 @@ fn effects(log: &[Sys], dir: &Path, inputs: &BTreeSet<String>) -> (Vec<String>, 
                     }
                 }
             },
-            "write" | "pwrite64" => {
-                let fd = s.args.split(',').next().unwrap_or("").trim().to_string();
+            "write" | "pwrite64" | "writev" | "pwritev" | "pwritev2" | "sendfile" | "copy_file_range" => {
+                // the descriptor written to: the first argument (the third of copy_file_range)
+                let fd = s.args.split(',').nth(if s.name == "copy_file_range" { 2 } else { 0 }).unwrap_or("").trim().to_string();
                 if let Some(np) = fds.get(&fd) {
                     let nb: usize = s.ret.split(' ').next().unwrap_or("0").parse().unwrap_or(0);
                     if let Some(last) = out.last_mut() {
